@@ -202,9 +202,16 @@ fn source_dictionary(repo: &Path) -> (Vec<String>, Vec<String>, Vec<String>, Vec
             }
         }
     }
+    // ... and a prefix with an *upper-cased* identifier-like literal ("O2O_" + "allow_unknown"):
+    // names that exist only at run time, in code that enumerates the environment
+    for p in &prefixes {
+        for l in lits.iter().filter(|l| l.len() >= 3 && l.len() <= 24 && l.chars().all(|c| c.is_ascii_lowercase() || c.is_ascii_digit() || c == '_') && l.chars().next().map(|c| c.is_ascii_lowercase()).unwrap_or(false)) {
+            env.push(format!("{}{}", p, l.to_uppercase()));
+        }
+    }
     env.sort();
     env.dedup();
-    env.truncate(64);
+    env.truncate(192);
     let mut argv: Vec<String> = lits.iter().filter(|s| s.starts_with("--") && s.len() > 3 && !s.contains(' ')).cloned().collect();
     argv.truncate(32);
     let mut pre: Vec<String> = prefixes.iter().map(|s| (*s).clone()).collect();
